@@ -5,10 +5,49 @@ released plan is Completed/Failed, has nothing Running, satisfies the consistenc
 of every entered scope has a completed run, and - plugin outcomes being a function of the action alone - its status
 is the uninterrupted run's).  Known, unfixed defects of the repair are excused clause by clause through the deviation
 flags listed as `known` in known_findings.json (KNOWN-FINDING lines); anything else is a VIOLATION.
-Theorems: coq/resume/props/C10.v.  Harness: harness/cmd/recover.  See props/recover_common.py.
+Theorems: coq/resume/props/C10.v (release side: terminal, nothing Running without flags; refutations per flag) and
+coq/c10x/props/C10.v (clause (i) of the full statement, for EVERY crash image of EVERY accepted engine trace and every
+deviation flag set: the released sequences and actions obey C04's clauses 7 and 8, the released plan obeys clause 6 -
+an invariant of the resumed automaton about the IN-MEMORY image, on top of coq/c04's product invariant for the crash
+images and coq/recover's transcription of fixAction / fixSeq).  The deferred-group clause, the block rule, progress and
+verdict equality stay monitored.  Harness: harness/cmd/recover.  See props/recover_common.py.
 """
+from vf import framework as fw
 from props import recover_common as rc
+
+# coq/c10x: clause (i) proved for the resumed automaton (first crash)
+FULL_PROJECTS = (("c10x", "consistency_statement"),)
+
+
+def check_full(ctx):
+    """Full .vo build of coq/c10x (and of the projects it cites: c04, c06, imgwf, chain) and re-check of its
+    props/C10.v with Print Assumptions; its theorems are obligations of this check."""
+    good = True
+    for proj, key in FULL_PROJECTS:
+        ok, log, where = fw.coq_build([proj])
+        ctx.oblige("full .vo build of coq/%s (make)" % proj, ok)
+        if not ok:
+            ctx.violation(dict(kind="coq-build-failed", broken="first failing file: %s" % where, log=log[-3000:]), nofail=True)
+            good = False
+            continue
+        pc = fw.props_check(proj, "C10")
+        fine = pc["ok"] and bool(pc["theorems"]) and not pc["axioms"] and pc["closed"] == len(pc["theorems"])
+        for t in pc["theorems"]:
+            ctx.oblige("theorem %s (%s)" % (t, pc["file"]), fine)
+        if isinstance(ctx.assumptions, dict):
+            ctx.assumptions[key] = dict(file=pc["file"], theorems=pc["theorems"],
+                                        closed_under_global_context=pc["closed"], axioms=pc["axioms"])
+        if not fine:
+            ctx.violation(dict(kind="property-theorem-does-not-check", broken=pc["file"], log=pc["log"]), nofail=True)
+            good = False
+    return good
 
 
 def run(ctx):
+    base = ctx.static_and_proofs
+
+    def both(proj, extra_projects=()):
+        # the theorems of coq/resume first (they set ctx.assumptions), then the consistency clause on top of them
+        return base(proj, extra_projects) and check_full(ctx)
+    ctx.static_and_proofs = both
     rc.run_check(ctx, "C10", plans_quick=12, plans_thorough=90, frm=5004)
